@@ -2,6 +2,7 @@ package bloomsearch
 
 import (
 	"math"
+	"reflect"
 )
 
 // MinMaxIndex records the observed numeric range of a field. Values outside
@@ -30,6 +31,9 @@ func ConvertToMinMaxInt64(value any) (minVal int64, maxVal int64, ok bool) {
 	case float64:
 		return floatToMinMaxInt64(v)
 	default:
+		if f, isFloat := namedFloat64(value); isFloat {
+			return floatToMinMaxInt64(f)
+		}
 		intVal, isInt := toInt64(value)
 		if !isInt {
 			return 0, 0, false
@@ -56,6 +60,9 @@ func ConvertToInt64(value any) (int64, bool) {
 	case float64:
 		return floatToInt64(v)
 	default:
+		if f, isFloat := namedFloat64(value); isFloat {
+			return floatToInt64(f)
+		}
 		return toInt64(value)
 	}
 }
@@ -105,8 +112,28 @@ func toInt64(value any) (int64, bool) {
 	case uint64:
 		return clampUint64ToInt64(v), true
 	default:
+		// Named numeric types (time.Duration, custom int/uint kinds, uintptr)
+		// do not match the concrete cases above; resolve them by kind.
+		rv := reflect.ValueOf(value)
+		switch rv.Kind() {
+		case reflect.Int, reflect.Int8, reflect.Int16, reflect.Int32, reflect.Int64:
+			return rv.Int(), true
+		case reflect.Uint, reflect.Uint8, reflect.Uint16, reflect.Uint32, reflect.Uint64, reflect.Uintptr:
+			return clampUint64ToInt64(rv.Uint()), true
+		}
 		return 0, false
 	}
+}
+
+// namedFloat64 resolves named floating-point types (type T float64/float32),
+// which the concrete float cases do not match.
+func namedFloat64(value any) (float64, bool) {
+	rv := reflect.ValueOf(value)
+	switch rv.Kind() {
+	case reflect.Float32, reflect.Float64:
+		return rv.Float(), true
+	}
+	return 0, false
 }
 
 func clampUint64ToInt64(v uint64) int64 {
